@@ -200,6 +200,7 @@ struct Sim {
   long low_priority = 0;
   // locks
   std::unordered_map< const void *, int > holders;
+  int last_unlock_holder = -1; // holder of the lock the last UNLOCK released
   std::vector< Pending > pending; // per fiber
   Pending pending_serial;
   // abort
@@ -654,6 +655,7 @@ void mark_progress() {
 void global_progress() { G.last_progress = G.stats.points; }
 void request_abort() { G.abort_requested = true; }
 void harness_yield(const void *addr) { point(addr, 0x7f); }
+int last_unlock_holder() { return G.last_unlock_holder; }
 int lock_holder(const void *addr) {
   auto it = G.holders.find(addr);
   return it == G.holders.end() ? -1 : it->second;
@@ -669,6 +671,10 @@ void note_lock(const void *addr, int what) {
     if (multi)
       G.fibers[G.cur].fail_streak = 0;
   } else if (what == 0) {
+    {
+      auto hit = G.holders.find(addr);
+      G.last_unlock_holder = hit == G.holders.end() ? -1 : hit->second;
+    }
     G.holders.erase(addr);
     if (multi)
       G.fibers[G.cur].after_release = true;
@@ -766,6 +772,10 @@ void cmi_verif_result(const void *address, int operation, long result) {
       ++G.fibers[G.cur].fail_streak;
     }
   } else if (operation == CMI_VERIF_OP_UNLOCK) {
+    {
+      auto hit = G.holders.find(address);
+      G.last_unlock_holder = hit == G.holders.end() ? -1 : hit->second;
+    }
     if (result == 0)
       G.holders.erase(address);
     if (G.region && G.team > 1)
